@@ -181,6 +181,18 @@ Theorem dct_charge_two_components_refuted :
 Proof. exact plane_two_components_uncovered. Qed.
 Print Assumptions dct_charge_two_components_refuted.
 
+(* DCT, progressive: the cap on passes over the coefficient buffer.  Whatever the scans are
+   (DC or AC, first pass or refinement, coded blocks or blocks skipped by EOB runs), the
+   blocks walked never exceed maxProgPasses x (coefficient blocks allocated and charged) + 1;
+   the closed form used by the extracted model is the block-by-block loop *)
+Theorem dct_pass_cap :
+  (forall scans st, pw_inv st -> Forall (fun s => (0 <= fst s)%Z /\ (0 <= snd s)%Z) scans ->
+     let '(st', ok) := run_scans scans st in
+     (w_total st <= w_total st')%Z /\ (0 <= w_visits st' <= jpeg_maxProgPasses * w_total st' + 1)%Z) /\
+  (forall n st, pw_inv st -> scan_iter n st = scan_fast (Z.of_nat n) st).
+Proof. exact (conj run_scans_bound scan_fast_iter). Qed.
+Print Assumptions dct_pass_cap.
+
 (* predictor row buffers, CCITT line buffers, JBIG2 pool (live bytes never exceed the cell),
    LZW (no charge: 20 KiB of fixed tables per reader) *)
 Theorem charge_covers_alloc :
@@ -257,3 +269,5 @@ Example ex_geom : geom_ok (Geom 4 2 2 1 1 2 2 2176) /\ plane_charge (Geom 4 2 2 
 Proof. split; [unfold geom_ok; cbn; repeat split; auto; discriminate | reflexivity]. Qed.
 Example ex_rowev : Forall (rowev_ok 16) [Row2 [EPass 8; EVert 16 0] false; Row1 [3; 20] true].
 Proof. repeat constructor; cbn; auto with zarith. Qed.
+Example ex_pw : pw_inv (PW 0 0) /\ run_scans [(100, 100); (0, 100); (0, 6300)]%Z (PW 0 0) = (PW 6401 100, false).
+Proof. split; [unfold pw_inv, pass_cap; cbn; auto with zarith | vm_compute; reflexivity]. Qed.
